@@ -50,10 +50,6 @@ theorem targets_filter (c : Cfg ρ) (q : Nat) (hq : q < c.nOps) (it : Item ρ) (
   | wm => simp [targetsOf, expand1, bcast_filter, hq]; rfl
   | barrier id => simp [targetsOf, expand1, bcast_filter, hq]; rfl
 
-def recOf : Item ρ → Option ρ
-  | .record r => some r
-  | _ => none
-
 structure Inv (c : Cfg ρ) (s : St ρ) : Prop where
   join : (s.stream.filterMap recOf).map c.keyOf = s.rfOut ++ s.rfPending
   main : ∀ q, q < c.nOps → delivered s q ++ pendingFor s q ++ project c q s.stream = project c q s.logical
@@ -97,8 +93,15 @@ theorem frame_ops (c : Cfg ρ) (s : St ρ) (h : Inv c s) (o : Nat) (x : OpSt)
 theorem inv_step (c : Cfg ρ) (hunbuf : c.handoffBuffered = false) (s s' : St ρ) (a : Act ρ) (h : Inv c s)
     (hs : step c s a = some s') : Inv c s' := by
   cases a with
-  | readRec r =>
-    simp only [step, Option.some.injEq] at hs
+  | fetch rs =>
+    simp only [step] at hs
+    split at hs <;> try (simp at hs)
+    subst hs
+    exact ⟨h.join, h.main, h.hand⟩
+  | enq =>
+    simp only [step] at hs
+    split at hs <;> try (simp at hs)
+    next r rest hbuf =>
     subst hs
     refine ⟨?_, ?_, h.hand⟩
     · simp [List.filterMap_append, recOf, h.join]
@@ -106,7 +109,8 @@ theorem inv_step (c : Cfg ρ) (hunbuf : c.handoffBuffered = false) (s s' : St ρ
       show delivered s q ++ pendingFor s q ++ project c q (s.stream ++ [.record r]) = project c q (s.logical ++ [.record r])
       rw [project_append, project_append, ← h.main q hq]; simp [List.append_assoc]
   | tick =>
-    simp only [step, Option.some.injEq] at hs
+    simp only [step] at hs
+    split at hs <;> try (simp at hs)
     subst hs
     refine ⟨?_, ?_, h.hand⟩
     · simp [List.filterMap_append, recOf, h.join]
@@ -114,7 +118,8 @@ theorem inv_step (c : Cfg ρ) (hunbuf : c.handoffBuffered = false) (s s' : St ρ
       show delivered s q ++ pendingFor s q ++ project c q (s.stream ++ [.wm]) = project c q (s.logical ++ [.wm])
       rw [project_append, project_append, ← h.main q hq]; simp [List.append_assoc]
   | barrier id =>
-    simp only [step, Option.some.injEq] at hs
+    simp only [step] at hs
+    split at hs <;> try (simp at hs)
     subst hs
     refine ⟨?_, ?_, h.hand⟩
     · simp [List.filterMap_append, recOf, h.join]
@@ -305,31 +310,123 @@ theorem inv_step (c : Cfg ρ) (hunbuf : c.handoffBuffered = false) (s s' : St ρ
     · simp at hs
 
 
-theorem step_logical (c : Cfg ρ) (s s' : St ρ) (a : Act ρ) (hs : step c s a = some s') :
-    s'.logical = s.logical ++ logicalOf [a] := by
-  cases a <;> simp only [step] at hs <;> (repeat' (split at hs)) <;>
-    first
-      | (simp at hs; done)
-      | (simp only [Option.some.injEq] at hs; subst hs; simp [logicalOf, setOp])
+/-! ### the reader's cursor and the checkpoint cuts -/
 
-theorem logicalOf_append (a b : List (Act ρ)) : logicalOf (a ++ b) = logicalOf a ++ logicalOf b := by
+theorem recordsOf_append (a b : List (Item ρ)) : recordsOf (a ++ b) = recordsOf a ++ recordsOf b := by
+  simp [recordsOf, List.filterMap_append]
+
+@[simp] theorem recordsOf_nil : recordsOf ([] : List (Item ρ)) = [] := rfl
+@[simp] theorem recordsOf_record (r : ρ) (l : List (Item ρ)) : recordsOf (.record r :: l) = r :: recordsOf l := rfl
+@[simp] theorem recordsOf_wm (l : List (Item ρ)) : recordsOf (.wm :: l) = recordsOf l := rfl
+@[simp] theorem recordsOf_barrier (id : Nat) (l : List (Item ρ)) : recordsOf (.barrier id :: l) = recordsOf l := rfl
+
+theorem cutsOf_append (a b : List (Item ρ)) : ∀ n, cutsOf (a ++ b) n = cutsOf a n ++ cutsOf b (n + (recordsOf a).length) := by
+  induction a with
+  | nil => intro n; simp [cutsOf]
+  | cons x xs ih =>
+    intro n
+    cases x with
+    | record r =>
+      simp only [List.cons_append, cutsOf, ih, recordsOf_record, List.length_cons]
+      congr 2; omega
+    | wm => simp only [List.cons_append, cutsOf, ih, recordsOf_wm]
+    | barrier id => simp only [List.cons_append, cutsOf, ih, recordsOf_barrier, List.cons_append]
+
+/-- the reader's cursor counts the records put on the output stream plus the rest of the current read; the cursor
+snapshotted for a barrier is the number of records before that barrier in the read order -/
+structure CutInv (s : St ρ) : Prop where
+  cur : (recordsOf s.logical).length + s.readBuf.length = s.cursor
+  cuts : cutsOf s.logical 0 = s.ckpts
+
+theorem cut_step (c : Cfg ρ) (s s' : St ρ) (a : Act ρ) (h : CutInv s) (hs : step c s a = some s') : CutInv s' := by
+  cases a with
+  | fetch rs =>
+    simp only [step] at hs
+    split at hs <;> try (simp at hs)
+    next hbuf =>
+    subst hs
+    refine ⟨?_, h.cuts⟩
+    have := h.cur; rw [hbuf] at this; simp at this ⊢; omega
+  | enq =>
+    simp only [step] at hs
+    split at hs <;> try (simp at hs)
+    next r rest hbuf =>
+    subst hs
+    refine ⟨?_, ?_⟩
+    · have := h.cur; rw [hbuf] at this; simp [recordsOf_append] at this ⊢; omega
+    · simp [cutsOf_append, cutsOf, h.cuts]
+  | tick =>
+    simp only [step] at hs
+    split at hs <;> try (simp at hs)
+    subst hs
+    refine ⟨?_, ?_⟩
+    · have := h.cur; simpa [recordsOf_append] using this
+    · simp [cutsOf_append, cutsOf, h.cuts]
+  | barrier id =>
+    simp only [step] at hs
+    split at hs <;> try (simp at hs)
+    next hbuf =>
+    subst hs
+    have hc := h.cur; rw [hbuf] at hc; simp at hc
+    refine ⟨?_, ?_⟩
+    · simpa [recordsOf_append, hbuf] using hc
+    · simp [cutsOf_append, cutsOf, h.cuts, hc]
+  | rfEmit | sTake | sAdd | sIsFull | sFlush | sSend | fire o | stale o | oTok o | oTFlush o | oDone o | oRecv o =>
+    simp only [step] at hs
+    repeat' (split at hs)
+    all_goals first
+      | (simp at hs; done)
+      | (simp only [Option.some.injEq] at hs; subst hs; exact ⟨by simpa [setOp] using h.cur, by simpa [setOp] using h.cuts⟩)
+
+/-- the records of the read order followed by the rest of the current read are what the reader handed out -/
+theorem step_fetched (c : Cfg ρ) (s s' : St ρ) (a : Act ρ) (hs : step c s a = some s') :
+    recordsOf s'.logical ++ s'.readBuf = recordsOf s.logical ++ s.readBuf ++ fetchedOf [a] := by
+  cases a with
+  | fetch rs =>
+    simp only [step] at hs
+    split at hs <;> try (simp at hs)
+    next hbuf => subst hs; simp [fetchedOf, hbuf]
+  | enq =>
+    simp only [step] at hs
+    split at hs <;> try (simp at hs)
+    next r rest hbuf => subst hs; simp [fetchedOf, hbuf, recordsOf_append]
+  | tick =>
+    simp only [step] at hs
+    split at hs <;> try (simp at hs)
+    subst hs; simp [fetchedOf, recordsOf_append]
+  | barrier id =>
+    simp only [step] at hs
+    split at hs <;> try (simp at hs)
+    subst hs; simp [fetchedOf, recordsOf_append]
+  | rfEmit | sTake | sAdd | sIsFull | sFlush | sSend | fire o | stale o | oTok o | oTFlush o | oDone o | oRecv o =>
+    simp only [step] at hs
+    repeat' (split at hs)
+    all_goals first
+      | (simp at hs; done)
+      | (simp only [Option.some.injEq] at hs; subst hs; simp [fetchedOf, setOp])
+
+theorem fetchedOf_append (a b : List (Act ρ)) : fetchedOf (a ++ b) = fetchedOf a ++ fetchedOf b := by
   induction a with
   | nil => rfl
-  | cons x xs ih => cases x <;> simp [logicalOf, ih]
+  | cons x xs ih => cases x <;> simp [fetchedOf, ih]
 
-theorem exec_inv (c : Cfg ρ) (hunbuf : c.handoffBuffered = false) (as : List (Act ρ)) : ∀ s s', Inv c s → exec c s as = some s' →
-    Inv c s' ∧ s'.logical = s.logical ++ logicalOf as := by
+theorem exec_inv (c : Cfg ρ) (hunbuf : c.handoffBuffered = false) (as : List (Act ρ)) : ∀ s s', Inv c s → CutInv s →
+    exec c s as = some s' →
+    Inv c s' ∧ CutInv s' ∧ recordsOf s'.logical ++ s'.readBuf = recordsOf s.logical ++ s.readBuf ++ fetchedOf as := by
   induction as with
-  | nil => intro s s' h he; simp [exec] at he; subst he; exact ⟨h, by simp [logicalOf]⟩
+  | nil => intro s s' h hc he; simp [exec] at he; subst he; exact ⟨h, hc, by simp [fetchedOf]⟩
   | cons a as ih =>
-    intro s s' h he
+    intro s s' h hc he
     simp only [exec] at he
     split at he
     · simp at he
     · next s1 hs1 =>
-      obtain ⟨h2, hl⟩ := ih s1 s' (inv_step c hunbuf s s1 a h hs1) he
-      refine ⟨h2, ?_⟩
-      rw [hl, step_logical c s s1 a hs1, List.append_assoc, ← logicalOf_append]; rfl
+      obtain ⟨h2, hc2, hl⟩ := ih s1 s' (inv_step c hunbuf s s1 a h hs1) (cut_step c s s1 a hc hs1) he
+      refine ⟨h2, hc2, ?_⟩
+      rw [hl, step_fetched c s s1 a hs1, List.append_assoc, ← fetchedOf_append]; rfl
+
+theorem init_cut (maxSize : Nat) (hasDelay : Bool) : CutInv (init maxSize hasDelay : St ρ) :=
+  ⟨rfl, rfl⟩
 
 theorem init_inv (c : Cfg ρ) (maxSize : Nat) (hasDelay : Bool) : Inv c (init maxSize hasDelay : St ρ) := by
   refine ⟨rfl, ?_, by intro o b hb; simp [init] at hb⟩
